@@ -208,6 +208,52 @@ func runC12(c *Ctx) {
 	c.currentRevisionChoice()
 	c.statusWriteGuard()
 	c.statusRetryShape("C12.5")
+	c.statusOnlyAfterCompletePass(r)
+}
+
+// statusOnlyAfterCompletePass: the counters are a census of the pods only once the pass has run to its
+// end; where the reconcile function reported an error they are half adjusted (a delete counted, its
+// replacement not yet). The status write is therefore unreachable from a failed pass.
+func (c *Ctx) statusOnlyAfterCompletePass(r *Reconcile) {
+	n := 0
+	for _, fi := range c.P.Funcs() {
+		if fi.Pkg.PkgPath != load.CtrlPkg {
+			continue
+		}
+		info := fi.Pkg.TypesInfo
+		for _, call := range callsIn(fi.Decl.Body, false) {
+			if f := gf.StaticCallee(info, call); f == nil || f.Origin() != r.FI.Obj {
+				continue
+			}
+			n++
+			fn, an := c.Analysis(fi)
+			st := stmtOf(fi.Decl.Body, call)
+			name := fmt.Sprintf("%s: status write after a failed %s", fi.Obj.Name(), r.FI.Obj.Name())
+			errF := c.errNonNilAfter(fn, st, call)
+			if errF == nil {
+				c.Bad("C12.6-status-only-after-a-complete-pass", name, call.Pos(), "the error of the reconcile function is not bound")
+				continue
+			}
+			aE := fn.FromAfter(st, an.StateAfter(st).Assume(errF))
+			reached := false
+			for _, c2 := range callsIn(fi.Decl.Body, false) {
+				writes := false
+				for _, t := range c.G.CallTargets(info, c2) {
+					for k := range c.G.Effects(t, "write") {
+						if k == "statefulsets.pingcap.UpdateStatus" {
+							writes = true
+						}
+					}
+				}
+				if writes && c2 != call && aE.StateAtExpr(c2).Reachable() {
+					reached = true
+				}
+			}
+			c.Check(!reached, "C12.6-status-only-after-a-complete-pass", name, call.Pos(), "no status write is reachable when the pass ended in an error",
+				"the status computed by a pass that ended in an error is written: counters adjusted half way (a delete counted, the re-create not) reach the API, and the completion rule can fire on them")
+		}
+	}
+	c.Floor("C12.6-reconcile-call-sites", n, 1)
 }
 
 // afterSuccessfulWrite: the adjustment is unreachable on the error edge of the
